@@ -122,6 +122,85 @@ def operand_av(it: Any, node: ast.expr | None) -> Any:
     return None
 
 
+def local_sources(fn: ast.AST, e: ast.expr, depth: int = 6) -> list[ast.expr]:
+    """The expressions `e` stands for once a local name that is only ever bound by plain assignment (not a parameter, a loop variable,
+    an unpacked tuple ...) is replaced by each value assigned to it, transitively; the arms of a conditional expression / `or` count
+    one by one. `d = self.package_dir; p = d` makes `p` stand for `self.package_dir`: which locals a value is carried through is
+    spelling, not behaviour."""
+    from ..astutil import Locals
+
+    lc = Locals(fn)
+    a = getattr(fn, "args", None)
+    params = {p.arg for p in (*a.posonlyargs, *a.args, *a.kwonlyargs, *filter(None, (a.vararg, a.kwarg)))} if a is not None else set()
+    out: list[ast.expr] = []
+
+    def go(x: ast.expr, d: int, seen: frozenset) -> None:
+        if isinstance(x, ast.IfExp) and d > 0:
+            go(x.body, d - 1, seen)
+            go(x.orelse, d - 1, seen)
+            return
+        if isinstance(x, ast.BoolOp) and isinstance(x.op, ast.Or) and d > 0:
+            for v in x.values:
+                go(v, d - 1, seen)
+            return
+        if isinstance(x, ast.NamedExpr) and d > 0:
+            go(x.value, d - 1, seen)
+            return
+        if isinstance(x, ast.Name) and d > 0 and x.id not in seen and x.id not in params:
+            ds = lc.defs.get(x.id, [])
+            if ds and all(k == "assign" and v is not None for k, _st, v in ds):
+                for _k, _st, v in ds:
+                    go(v, d - 1, seen | {x.id})  # type: ignore[arg-type]
+                return
+        out.append(x)
+
+    go(e, depth, frozenset())
+    return out
+
+
+def _function_at(ix: Any, origin: str) -> "FuncInfo | None":
+    """the innermost function of the package that contains the position `<module file>:<line>`"""
+    rel, _, line = origin.rpartition(":")
+    if not line.isdigit():
+        return None
+    best: "FuncInfo | None" = None
+    for f in ix.all_functions:
+        if f.module.rel == rel and f.node.lineno <= int(line) <= (getattr(f.node, "end_lineno", None) or f.node.lineno):
+            if best is None or f.node.lineno >= best.node.lineno:
+                best = f
+    return best
+
+
+def root_canonical(ix: Any, av: Any, funcs: "list[FuncInfo]") -> Any:
+    """The string structure of a path with its first part named by value. The interpreter describes a part it has no structure for by
+    the text of the expression it was read from (`self.package_dir`, or `pkg` after `pkg = self.package_dir`); here a local name is
+    followed to what it is bound from - in the function in which the part was read (its origin), else in `funcs` - so that the
+    directory a path starts from reads the same however many locals it is carried through. A name bound from several values gives
+    one alternative per value."""
+    from dataclasses import replace
+
+    from ..astutil import Locals, norm
+    from ..domain import Part
+
+    if av is None or not av.alts:
+        return av
+    out: set[tuple] = set()
+    for alt in av.alts:
+        first = alt[0] if alt else None
+        texts: list[str] = []
+        if first is not None and first.kind == "hole" and first.text.isidentifier():
+            cands = [g for g in (_function_at(ix, first.origin), *funcs) if g is not None]
+            for g in cands:
+                if first.text in Locals(g.node).defs:
+                    texts = sorted({norm(x) for x in local_sources(g.node, ast.Name(id=first.text, ctx=ast.Load()))})
+                    break
+        if not texts or texts == [first.text]:
+            out.add(alt)
+        else:
+            out |= {(Part("hole", t, first.labels, first.origin), *alt[1:]) for t in texts}
+    return replace(av, alts=frozenset(out))
+
+
 def callee_of(ix: Any, f: FuncInfo, c: ast.Call) -> FuncInfo | None:
     """the function of the package that a call made inside f runs: `self.m()` / `cls.m()` / `OwnClass.m()` or a plain module function"""
     cn = call_name(c)
@@ -199,6 +278,39 @@ def _substitute(e: ast.expr, env: dict[str, ast.expr]) -> ast.expr | None:
     return None
 
 
+def _inline_locals(f: FuncInfo, e: ast.expr, depth: int = 4) -> ast.expr:
+    """e with every local name that is bound exactly once, by a plain assignment, replaced by the assigned expression - along the spine
+    of `/` and f-strings, every other node is the original one. A path composed in a local first (`out = directory / name` followed by
+    `out.write_text(...)`) then reads as its composition."""
+    from ..astutil import Locals
+
+    lc = Locals(f.node)
+    a = f.node.args
+    params = {p.arg for p in (*a.posonlyargs, *a.args, *a.kwonlyargs, *filter(None, (a.vararg, a.kwarg)))}
+
+    def go(x: ast.expr, d: int) -> ast.expr:
+        if isinstance(x, ast.Name) and d > 0 and x.id not in params:
+            ds = lc.defs.get(x.id, [])
+            if len(ds) == 1 and ds[0][0] == "assign" and ds[0][2] is not None:
+                return go(ds[0][2], d - 1)  # type: ignore[arg-type]
+            return x
+        if isinstance(x, ast.BinOp) and isinstance(x.op, ast.Div):
+            l, r = go(x.left, d), go(x.right, d)
+            return x if l is x.left and r is x.right else ast.copy_location(ast.BinOp(left=l, op=x.op, right=r), x)
+        if isinstance(x, ast.JoinedStr):
+            vals: list[ast.expr] = []
+            for v in x.values:
+                if isinstance(v, ast.FormattedValue):
+                    y = go(v.value, d)
+                    v = v if y is v.value else ast.copy_location(ast.FormattedValue(value=y, conversion=v.conversion,
+                                                                                    format_spec=v.format_spec), v)
+                vals.append(v)
+            return x if all(p is q for p, q in zip(vals, x.values)) else ast.copy_location(ast.JoinedStr(values=vals), x)
+        return x
+
+    return go(e, depth)
+
+
 def bind_call(ix: Any, g: FuncInfo, c: ast.Call, f: FuncInfo) -> dict[str, ast.expr] | None:
     """argument expression per parameter of f at the call c (made inside g); None when the call does not spell them out (* / **)"""
     if any(isinstance(a, ast.Starred) for a in c.args):
@@ -237,7 +349,9 @@ def in_context(ix: Any, effs: list[Effect], depth: int = 3) -> list[Effect]:
     out: list[Effect] = []
 
     def place(e: Effect, d: int) -> None:
-        ps = {n.id for n in ast.walk(e.target) if isinstance(n, ast.Name)} & _own_params(e.func) if e.target is not None else set()
+        # the operand as composed from the function's parameters, whether it is written in place or named in a local first
+        target = _inline_locals(e.func, e.target) if e.target is not None else None
+        ps = {n.id for n in ast.walk(target) if isinstance(n, ast.Name)} & _own_params(e.func) if target is not None else set()
         sites = calls_of(e.func) if ps and d > 0 else []
         restated: list[Effect] = []
         for g, c in sites:
@@ -247,7 +361,7 @@ def in_context(ix: Any, effs: list[Effect], depth: int = 3) -> list[Effect]:
             if args is None or not ps <= set(args):
                 restated = []
                 break
-            tgt = _substitute(e.target, {p: args[p] for p in ps})  # type: ignore[arg-type]
+            tgt = _substitute(target, {p: args[p] for p in ps})  # type: ignore[arg-type]
             if tgt is None:
                 restated = []
                 break
